@@ -41,9 +41,11 @@ type stepT struct {
 }
 
 type caseT struct {
-	NParts  int     `json:"nparts"`
-	Keyless bool    `json:"keyless"`
-	Steps   []stepT `json:"steps"`
+	NParts   int     `json:"nparts"`
+	Keyless  bool    `json:"keyless"`
+	MixedCol bool    `json:"mixedcol,omitempty"` // column c is declared as "C" (statements keep saying c)
+	Inline   string  `json:"inline,omitempty"`   // pool index declared inline in CREATE TABLE (single partition only)
+	Steps    []stepT `json:"steps"`
 }
 
 // columns: 0 pk BIGINT, 1 a BIGINT NULL, 2 b VARCHAR(8) NULL, 3 c BIGINT NULL
@@ -60,7 +62,8 @@ var idxPool = []idxSpec{
 	{"ia", "a", false, 1}, {"ib", "b", false, 2}, {"iab", "a, b", false, 1}, {"ic", "c", false, 3},
 	{"ib2", "b(2)", false, 2}, {"ica", "c, a", false, 3}, {"iba", "b, a", false, 2}, {"ipa", "pk, a", false, 0},
 	{"uc", "c", true, 3}, {"ub2", "b(2)", true, 2}, {"uac", "a, c", true, 1},
-	{"Iac", "a, c", false, 1}, {"IB", "b", false, 2},
+	{"Iac", "a, c", false, 1}, {"IB", "b", false, 2}, {"Idx_c", "c", false, 3}, {"idxV", "a, b", false, 1},
+	{"C", "C", false, 3}, // name derived from the upper-case column name by ALTER TABLE t ADD INDEX (C)
 }
 
 var nameID = map[string]int{}
@@ -72,6 +75,18 @@ func init() {
 	for i, n := range []string{"ja", "jb", "jc", "Jd"} {
 		nameID[strings.ToLower(n)] = 100 + i
 	}
+}
+
+// createdName: the index name a CREATE step asks for ("ALTER TABLE t ADD INDEX (C)" derives it from the column).
+func createdName(sqlText string) string {
+	f := strings.Fields(sqlText)
+	if f[0] == "ALTER" {
+		return "C"
+	}
+	if f[1] == "UNIQUE" {
+		return f[3]
+	}
+	return f[2]
 }
 
 func coqName(n string) string {
@@ -328,12 +343,12 @@ func gen(r *lib.RNG) caseT {
 	c := caseT{NParts: lib.Pick(r, []int{1, 1, 2, 3}), Keyless: r.Chance(1, 4)}
 	live := map[string]idxSpec{}
 	allowUnique := r.Chance(2, 5)
-	allowMixed := r.Chance(1, 6)
+	allowMixed := r.Chance(1, 3)
 	allowRename := r.Chance(1, 10)
 	pickNew := func() (idxSpec, bool) {
 		for try := 0; try < 10; try++ {
 			s := lib.Pick(r, idxPool)
-			if _, ok := live[strings.ToLower(s.Name)]; ok {
+			if _, ok := live[strings.ToLower(s.Name)]; ok || s.Name == "C" {
 				continue
 			}
 			if s.Unique && !allowUnique {
@@ -346,7 +361,13 @@ func gen(r *lib.RNG) caseT {
 		}
 		return idxSpec{}, false
 	}
+	c.MixedCol = r.Chance(1, 4)
 	create := func() {
+		if _, has := live["c"]; c.MixedCol && !has && r.Chance(1, 3) {
+			c.Steps = append(c.Steps, stepT{SQL: "ALTER TABLE %T ADD INDEX (C)", Kind: "create"})
+			live["c"] = idxSpec{"C", "C", false, 3}
+			return
+		}
 		if s, ok := pickNew(); ok {
 			u := ""
 			if s.Unique {
@@ -354,6 +375,15 @@ func gen(r *lib.RNG) caseT {
 			}
 			c.Steps = append(c.Steps, stepT{SQL: fmt.Sprintf("CREATE %sINDEX %s ON %%T (%s)", u, s.Name, s.Cols), Kind: "create"})
 			live[strings.ToLower(s.Name)] = s
+		}
+	}
+	if c.NParts == 1 && r.Chance(1, 3) {
+		for try := 0; try < 10 && c.Inline == ""; try++ {
+			s := lib.Pick(r, idxPool)
+			if !s.Unique && s.Name != "C" && !strings.Contains(s.Cols, "(") && (allowMixed || r.Bool()) {
+				c.Inline = s.Name
+				live[strings.ToLower(s.Name)] = s
+			}
 		}
 	}
 	for i, n := 0, r.Range(1, 3); i < n; i++ {
@@ -395,7 +425,22 @@ func gen(r *lib.RNG) caseT {
 		case k < 72:
 			st.SQL = "DELETE FROM %T WHERE " + genCond(r, r.Range(0, 3)).sql()
 		case k < 80:
-			st.SQL = "REPLACE INTO %T VALUES " + genRowSQL(r)
+			// 1-3 rows; a primary key may be written twice in the statement (present or absent before)
+			rows := []string{}
+			firstPK := int64(r.Intn(14))
+			for i, n := 0, r.Range(1, 3); i < n; i++ {
+				row := genRowSQL(r)
+				if i == 0 || r.Bool() {
+					row = fmt.Sprintf("(%d%s", firstPK, row[strings.Index(row, ","):])
+				}
+				rows = append(rows, row)
+			}
+			if r.Chance(2, 3) {
+				st.SQL = "REPLACE INTO %T VALUES " + strings.Join(rows, ", ")
+			} else {
+				st.SQL = "INSERT INTO %T VALUES " + strings.Join(rows, ", ") + " ON DUPLICATE KEY UPDATE " +
+					lib.Pick(r, []string{"a = a + 1", "c = 7", "b = 'ab'", "a = VALUES(a), c = VALUES(c)"})
+			}
 		case k < 83:
 			st.SQL = "TRUNCATE TABLE %T"
 			st.Kind = "truncate"
@@ -485,7 +530,7 @@ func newCtx(s *eng.S) *sql.Context {
 	return ctx
 }
 
-func mkTable(w *world, name string, nparts int, keyless bool) *memory.Table {
+func mkTable(w *world, name string, nparts int, keyless bool, cname string) *memory.Table {
 	ctx := newCtx(w.s)
 	dbi, _ := w.e.Pro.Database(ctx, "db")
 	db := dbi.(*memory.Database)
@@ -493,7 +538,7 @@ func mkTable(w *world, name string, nparts int, keyless bool) *memory.Table {
 		{Name: "pk", Type: types.Int64, Source: name, PrimaryKey: !keyless, Nullable: false},
 		{Name: "a", Type: types.Int64, Source: name, Nullable: true},
 		{Name: "b", Type: varchar8(), Source: name, Nullable: true},
-		{Name: "c", Type: types.Int64, Source: name, Nullable: true},
+		{Name: cname, Type: types.Int64, Source: name, Nullable: true},
 	}
 	var pks sql.PrimaryKeySchema
 	if keyless {
@@ -764,7 +809,35 @@ func coqState(st memory.VerifC16State) string {
 func run(c *lib.Ctx, cs caseT) {
 	w := &world{e: eng.New("db")}
 	w.s = w.e.Session()
-	mkTable(w, "t", cs.NParts, cs.Keyless)
+	cname := "c"
+	if cs.MixedCol {
+		cname = "C"
+		c.Count("table_with_mixed_case_column")
+	}
+	var inline idxSpec
+	for _, sp := range idxPool {
+		if cs.Inline != "" && sp.Name == cs.Inline {
+			inline = sp
+		}
+	}
+	if inline.Name != "" && cs.NParts == 1 {
+		pkdef := "pk BIGINT PRIMARY KEY"
+		if cs.Keyless {
+			pkdef = "pk BIGINT NOT NULL"
+		}
+		// CREATE TABLE resolves inline key columns case-sensitively: spell the column as declared
+		toks := strings.Split(inline.Cols, ", ")
+		for i, tk := range toks {
+			if tk == "c" {
+				toks[i] = cname
+			}
+		}
+		w.s.MustExec(fmt.Sprintf("CREATE TABLE t (%s, a BIGINT, b VARCHAR(8), %s BIGINT, KEY %s (%s))", pkdef, cname, inline.Name, strings.Join(toks, ", ")))
+		c.Count("table_with_inline_key")
+	} else {
+		inline = idxSpec{}
+		mkTable(w, "t", cs.NParts, cs.Keyless, cname)
+	}
 	w.twin = true
 	for _, st := range cs.Steps {
 		if st.Kind == "create" && strings.Contains(st.SQL, "UNIQUE") {
@@ -772,7 +845,15 @@ func run(c *lib.Ctx, cs caseT) {
 		}
 	}
 	if w.twin {
-		mkTable(w, "u", cs.NParts, cs.Keyless)
+		if inline.Name != "" {
+			pkdef := "pk BIGINT PRIMARY KEY"
+			if cs.Keyless {
+				pkdef = "pk BIGINT NOT NULL"
+			}
+			w.s.MustExec(fmt.Sprintf("CREATE TABLE u (%s, a BIGINT, b VARCHAR(8), %s BIGINT)", pkdef, cname))
+		} else {
+			mkTable(w, "u", cs.NParts, cs.Keyless, cname)
+		}
 		c.Count("history_with_twin")
 	} else {
 		c.Count("history_with_unique_index")
@@ -836,6 +917,16 @@ func run(c *lib.Ctx, cs caseT) {
 	nontrivial := 0
 	indexDriven := 0
 	before := w.dump()
+	expLive := map[string]bool{} // indexes that exist according to the outcomes the implementation reported
+	if inline.Name != "" {
+		for _, ix := range before.Indexes {
+			if ix.Name == inline.Name {
+				steps = append(steps, fmt.Sprintf("((OCreate {| iname := %s; icols := %s; nsort := %d%%nat |}), false, %s, [])",
+					coqName(ix.Name), lib.CoqListOf(ix.Cols, coqNat), ix.NumExprs, coqState(before)))
+				expLive[strings.ToLower(ix.Name)] = true
+			}
+		}
+	}
 	for si, st := range cs.Steps {
 		q := strings.ReplaceAll(st.SQL, "%T", "t")
 		res := w.s.Query(q)
@@ -862,11 +953,7 @@ func run(c *lib.Ctx, cs caseT) {
 		// the operation handed to the model
 		createFailed := false
 		if st.Kind == "create" && res.Err != nil && !panicked {
-			f := strings.Fields(st.SQL)
-			nm := f[2]
-			if f[1] == "UNIQUE" {
-				nm = f[3]
-			}
+			nm := createdName(st.SQL)
 			for _, ix := range after.Indexes {
 				if ix.Name == nm {
 					createFailed = true
@@ -882,11 +969,7 @@ func run(c *lib.Ctx, cs caseT) {
 			op = "OTruncate"
 		case st.Kind == "create":
 			var spec idxSpec
-			f := strings.Fields(st.SQL)
-			nm := f[2]
-			if f[1] == "UNIQUE" {
-				nm = f[3]
-			}
+			nm := createdName(st.SQL)
 			for _, s := range idxPool {
 				if s.Name == nm {
 					spec = s
@@ -941,6 +1024,18 @@ func run(c *lib.Ctx, cs caseT) {
 			}
 			op = fmt.Sprintf("(OApply %s %s)", coqRows(dels), coqRows(adds))
 		}
+		if !panicked {
+			f := strings.Fields(st.SQL)
+			switch {
+			case st.Kind == "create" && (res.Err == nil || createFailed):
+				expLive[strings.ToLower(createdName(st.SQL))] = true
+			case st.Kind == "drop" && res.Err == nil:
+				delete(expLive, strings.ToLower(f[2]))
+			case st.Kind == "rename" && res.Err == nil:
+				delete(expLive, strings.ToLower(f[5]))
+				expLive[strings.ToLower(f[7])] = true
+			}
+		}
 		// twin
 		if w.twin && res.Err == nil && (st.Kind == "dml" || st.Kind == "truncate") {
 			r2 := w.s.Query(strings.ReplaceAll(st.SQL, "%T", "u"))
@@ -958,6 +1053,10 @@ func run(c *lib.Ctx, cs caseT) {
 			scan := rawRows(after)
 			// (2) a lookup through every index
 			for _, l := range st.Lookups {
+				if !expLive[strings.ToLower(l.Index)] {
+					c.Count("lookup_skipped:index_was_not_created") // e.g. CREATE UNIQUE INDEX rejected on existing duplicates
+					continue
+				}
 				rows, err, pn := apiLookup(w, l)
 				if pn != "" || err != nil {
 					addFail("index-lookup-errors", fmt.Sprintf("after step %d lookup %+v: %v %s", si, l, err, pn))
